@@ -8,12 +8,16 @@ import (
 
 // ReplicaInfo returns a replica if it is present in the configuration.
 func (g *RuntimeConfig) ReplicaInfo(id hotstuff.ID) (replica *hotstuff.ReplicaInfo, ok bool) {
+	g.replicasMut.RLock()
+	defer g.replicasMut.RUnlock()
 	replica, ok = g.replicas[id]
 	return
 }
 
 // ReplicaCount returns the number of replicas in the configuration.
 func (g *RuntimeConfig) ReplicaCount() int {
+	g.replicasMut.RLock()
+	defer g.replicasMut.RUnlock()
 	return len(g.replicas)
 }
 
@@ -24,11 +28,15 @@ func (g *RuntimeConfig) QuorumSize() int {
 
 // AddReplica adds information about the replica.
 func (g *RuntimeConfig) AddReplica(replicaInfo *hotstuff.ReplicaInfo) {
+	g.replicasMut.Lock()
+	defer g.replicasMut.Unlock()
 	g.replicas[replicaInfo.ID] = replicaInfo
 }
 
 // SetReplicaMetadata sets the metadata for a replica based on id.
 func (g *RuntimeConfig) SetReplicaMetadata(id hotstuff.ID, metadata map[string]string) error {
+	g.replicasMut.Lock()
+	defer g.replicasMut.Unlock()
 	if _, ok := g.replicas[id]; !ok {
 		return fmt.Errorf("replica %d does not exist", id)
 	}
